@@ -1,7 +1,10 @@
 """C07 — prolog/epilog preserve callee-saved state and keep frame areas disjoint (DESIGN.md section 6, C07)."""
+import re
+
 import vlib
 
 PID = "C07"
+UFF_SHAPES = {}
 MANIFEST = {
     "technique": "Lean 4 theorems over a hand model of FuncFrame::init/finalize and x86/AArch64 emit_prolog/emit_epilog executed on an "
                  "abstract stack machine (all frames, all entry stacks, all confined bodies; induction over push/pop and save-slot lists) "
@@ -115,6 +118,71 @@ def gen_op(rng, tier, wild=False):
                                                                     ovr, upd, lsz, lal, csz, cal, sareg)
 
 
+GPREGS = {0: [0, 1, 2, 3, 5, 6, 7], 1: [0, 1, 2, 3, 5, 6, 7, 8, 9, 12, 15], 2: list(range(0, 29))}
+
+
+def gen_seq(rng):
+    """init (optionally on a convention with user-set preserved masks) followed by a random sequence of public-API calls."""
+    arch = rng.choice((0, 0, 1, 1, 1, 2, 2))
+    cc = rng.choice(CCS[arch])
+    win = rng.randrange(2)
+    arg_stack = rng.choice((0, 0, 4, 8, 16, 40))
+    used = [pick_mask(rng, arch, g) for g in range(4)]
+    pm = "-"
+    if rng.random() < 0.35:
+        if arch == 2:
+            p = [rng.getrandbits(31) | (1 << 30), rng.getrandbits(32), 0, 0]
+        else:
+            gpbits = 8 if arch == 0 else 16
+            p = [rng.getrandbits(gpbits), rng.getrandbits(8 if arch == 0 else 32), rng.getrandbits(8), rng.getrandbits(8)]
+        pm = ",".join("%x" % x for x in p)
+    ops = []
+    for _ in range(rng.randrange(0, 10)):
+        k = rng.choice(("sls", "sla", "scs", "sca", "uls", "ula", "ucs", "uca", "aat", "aat", "cat", "sd", "ad", "sad", "ssa", "rsa", "rrz",
+                        "uff", "uff"))
+        if k in ("sls", "uls"):
+            ops.append("%s:%d" % (k, rng.choice((0, 1, 8, 40, 100, 4096, 65536, rng.randrange(1 << 16)))))
+        elif k in ("scs", "ucs"):
+            ops.append("%s:%d" % (k, rng.choice((0, 8, 32, 40, rng.randrange(4096)))))
+        elif k in ("sla", "ula", "sca", "uca"):
+            ops.append("%s:%d" % (k, rng.choice((0, 1, 4, 8, 16, 16, 32, 64))))
+        elif k == "aat":
+            ops.append("aat:%x" % rng.choice((0x10, 0x10, 0x20, 0x40, 0x80, 0x10000, 0x40000, 0x80000, 0x100000, 0x1, 0x50)))
+        elif k == "cat":
+            ops.append("cat:%x" % rng.choice((0x10, 0x20, 0x40, 0x10000)))
+        elif k in ("sd", "ad"):
+            g = rng.randrange(4)
+            ops.append("%s:%d:%x" % (k, g, pick_mask(rng, arch, g)))
+        elif k == "ssa":
+            ops.append("ssa:%d" % rng.choice(GPREGS[arch]))
+        elif k == "uff":
+            ops.append("uff:%d:%x" % (rng.randrange(0, 11), rng.getrandbits(48)))
+        else:
+            ops.append(k)
+    return "seq %d %d %d %d %x %x %x %x %s %s" % (arch, cc, win, arg_stack, used[0], used[1], used[2], used[3], pm, ",".join(ops) or "-")
+
+
+def sweep_ops(tier):
+    """Every CallConvId value (valid or not) x every architecture x both platforms x a fixed battery of frames."""
+    out = []
+    full = tier != "quick"
+    masks = ("0", "ffffffff", "hint") if full else ("hint",)
+    attrs = (0, 0x10, 0x20, 0x30) if full else (0, 0x30)
+    sizes = ((0, 0), (8, 8), (40, 16), (100, 32), (4096, 64)) if full else ((40, 16), (100, 32))
+    calls = ((0, 0), (32, 16)) if full else ((32, 16),)
+    for arch in (0, 1, 2):
+        for cc in list(range(0, 36)) + [255]:
+            for win in (0, 1):
+                for mk in masks:
+                    u = [0xFFFFFFFF if mk == "ffffffff" else 0 if mk == "0" else PRESERVED_HINT[arch][g] for g in range(4)]
+                    for at in attrs:
+                        for lsz, lal in sizes:
+                            for csz, cal in calls:
+                                out.append("frame %d %d %d %d %x %x %x %x %x - 0 %d %d %d %d 255" % (arch, cc, win, 8, at, u[0], u[1], u[2], u[3],
+                                                                                                 lsz, lal, csz, cal))
+    return out
+
+
 def is_pow2_or_zero(n):
     return n & (n - 1) == 0
 
@@ -122,6 +190,20 @@ def is_pow2_or_zero(n):
 def monitorable(op):
     """Frames inside the property's quantifier: power-of-two alignments <= 64, sizes that do not wrap 32-bit arithmetic."""
     w = op.split()
+    if w[0] == "seq":
+        arch = int(w[1])
+        if w[9] != "-":
+            p = [int(x, 16) for x in w[9].split(",")]
+            if arch == 2 and not (p[0] >> 30) & 1:
+                return False
+        if w[10] != "-":
+            for o in w[10].split(","):
+                a = o.split(":")
+                if a[0] in ("sla", "ula", "sca", "uca") and not (is_pow2_or_zero(int(a[1])) and int(a[1]) <= 64):
+                    return False
+                if a[0] in ("sls", "uls", "scs", "ucs") and int(a[1]) >= (1 << 24):
+                    return False
+        return int(w[4]) < 65536
     lsz, lal, csz, cal = int(w[12]), int(w[13]), int(w[14]), int(w[15])
     return is_pow2_or_zero(lal) and is_pow2_or_zero(cal) and lal <= 64 and cal <= 64 and lsz < (1 << 24) and csz < (1 << 24) and int(w[4]) < 65536
 
@@ -142,7 +224,20 @@ def judge(h, ops):
     impl, rc, err = vlib.run_lines([str(h)], ops)
     if rc != 0 or len(impl) != len(ops):
         return None, None, None, (rc, err)
-    model, rc2, err2 = vlib.run_model(PID, ops)
+    # the real update_func_frame calls report what they did to the frame; the model replays exactly that
+    mops = list(ops)
+    for i, (o, r) in enumerate(zip(ops, impl)):
+        if " uff " in r:
+            parts = r.split(" uff ")
+            impl[i] = parts[0]
+            obs = iter(parts[1:])
+            UFF_SHAPES[i] = [x.split() for x in parts[1:]]
+
+            def rep(m, obs=obs):
+                t = next(obs).split()
+                return "uffr:%s:%s:%s:%s:%s:%d" % (t[0], t[1], t[2], t[3], t[4], 1 if t[5] == "Ok" else 0)
+            mops[i] = re.sub(r"uff:\d+:[0-9a-f]+", rep, o)
+    model, rc2, err2 = vlib.run_model(PID, mops)
     if rc2 != 0 or len(model) != len(ops):
         return impl, None, None, (rc2, err2)
     idx = [i for i, (o, r) in enumerate(zip(ops, impl)) if r.startswith("ok ") and monitorable(o)]
@@ -161,10 +256,21 @@ def shrink(h, op, reason_head):
         impl, rc, _ = vlib.run_lines([str(h)], [cand])
         if rc != 0 or not impl or not impl[0].startswith("ok ") or not monitorable(cand):
             return False
-        m, _, _ = vlib.run_model(PID, ["mon " + impl[0][3:]])
+        m, _, _ = vlib.run_model(PID, ["mon " + impl[0][3:].split(" uff ")[0]])
         return bool(m) and m[0].startswith("BAD " + reason_head)
 
     w = op.split()
+    if w[0] == "seq":
+        if w[10] != "-":
+            keep = vlib.ddmin(w[10].split(","), lambda c: fails(" ".join(w[:10] + [",".join(c)])), max_tests=60)
+            if fails(" ".join(w[:10] + [",".join(keep)])):
+                w[10] = ",".join(keep)
+        for i, simple in ((9, "-"), (4, "0"), (5, "0"), (6, "0"), (7, "0"), (8, "0")):
+            c = list(w)
+            c[i] = simple
+            if fails(" ".join(c)):
+                w = c
+        return " ".join(w)
     for _ in range(2):
         for i in (5, 6, 7, 8, 9):           # attrs and used masks: drop bits
             v = int(w[i], 16)
@@ -212,6 +318,10 @@ def run(res):
     ops = list(CORPUS)
     ops += [gen_op(rng, res.tier) for _ in range(n)]
     ops += [gen_op(rng, res.tier, wild=True) for _ in range(n // 4)]
+    ops += [gen_seq(rng) for _ in range(n // 2)]
+    sweep = sweep_ops(res.tier)
+    ops += sweep
+    UFF_SHAPES.clear()
     impl, model, mon, fail = judge(h, ops)
     if fail is not None:
         rc, err = fail
@@ -227,13 +337,30 @@ def run(res):
             res.violation("driver/harness protocol failure rc=%s %s" % (rc, err[-500:]), {}, found_input=False, key="protocol")
         return
 
+    # update_func_frame may only add dirty registers and select a real GP register (never sp) as SA register
+    for i, shapes in UFF_SHAPES.items():
+        arch = int(ops[i].split()[1])
+        for t in shapes:
+            why = None
+            if t[6] != "1":
+                why = "changed a field other than dirty masks / SA register"
+            elif len(t) > 7:
+                why = t[7]
+            elif t[4] != "-" and (int(t[4]) == (31 if arch == 2 else 4) or int(t[4]) >= (32 if arch == 2 else 16)):
+                why = "selected register %s as SA register" % t[4]
+            if why and mon[i] is None:
+                mon[i] = "BAD update_func_frame " + why.replace(" ", "-")
     bad = [(i, mon[i]) for i in range(len(ops)) if mon[i] is not None and mon[i].startswith("BAD")]
     diffs = [i for i in range(len(ops)) if impl[i] != model[i]]
     judged = sum(1 for m in mon if m is not None)
     kinds = {}
     for o, r, m in zip(ops, impl, mon):
         w = o.split()
-        k = ARCHN[int(w[1])] + ":" + (r.split()[0] if not r.startswith("ok") else ("ok" if " | !" not in r else "emit-refused"))
+        k = ARCHN[int(w[1])] + ":" + w[0] + ":" + (r.split()[0] if not r.startswith("ok") else ("ok" if " | !" not in r else "emit-refused"))
+        if w[0] == "seq" and w[10] != "-":
+            for o2 in w[10].split(","):
+                k3 = "apiop:" + o2.split(":")[0]
+                kinds[k3] = kinds.get(k3, 0) + 1
         kinds[k] = kinds.get(k, 0) + 1
         if r.startswith("ok "):
             f = r[3:].split(" | ")[0].split()
@@ -260,6 +387,8 @@ def run(res):
                             "correspondence only; non-trivial = distinct op the real code accepts; every accepted frame inside the quantifier is "
                             "executed by the Lean monitor at every entry-stack residue mod 128")
     res.coverage["exhaustive"] = False
+    res.coverage["sweep"] = "%d frames: every CallConvId 0..35 and 255 x {x86, x64, a64} x {linux, windows} x fixed battery" % len(sweep)
+    res.coverage["update_func_frame_calls"] = sum(len(v) for v in UFF_SHAPES.values())
     res.coverage["input_distribution"] = kinds
     res.coverage["monitor_judged"] = judged
     res.coverage["traces_validated_against_impl"] = len(ops)
@@ -279,6 +408,8 @@ def run(res):
         res.violation("real prolog/epilog violates C07 on frame %r: monitor says %s (%d such frames in this run); implementation answered %s"
                       % (small, m, cnt, (si[0] if si else "?")[:700]),
                       {"ops": [small], "monitor": m, "original_op": ops[i]}, True, key=key)
+    # frames of the open finding's class do not hide a broken correspondence / obligation
+    bad = [(i, m) for i, m in bad if known_key(ops[i], impl[i], m[4:]) != KNOWN_KEY_A64_DA]
     if not bad and diffs:
         i = diffs[0]
         res.violation("correspondence model/implementation differs at %r: impl=%s model=%s (%d differing ops); the property predicate holds on "
@@ -295,7 +426,7 @@ def replay(data):
     ops = data["replay"].get("ops", [])
     h = vlib.build_harness("c07")
     impl, rc, err = vlib.run_lines([str(h)], ops)
-    mon, _, _ = vlib.run_model(PID, ["mon " + r[3:] if r.startswith("ok ") else "x" for r in impl])
+    mon, _, _ = vlib.run_model(PID, ["mon " + r[3:].split(" uff ")[0] if r.startswith("ok ") else "x" for r in impl])
     for o, r, m in zip(ops, impl, mon):
         print(o, "->", r, "->", m)
     return 0
